@@ -43,6 +43,28 @@ func (db *DB) LinkAdd(ParentAgentID int, LinkAgentID int) error {
 	return nil
 }
 
+// LinkMove replaces whatever parent the agent had by the given one, atomically.
+func (db *DB) LinkMove(ParentAgentID int, LinkAgentID int) error {
+	tx, err := db.db.Begin()
+	if err != nil {
+		return err
+	}
+
+	_, err = tx.Exec("DELETE FROM TS_Links WHERE LinkAgentID = ?", LinkAgentID)
+	if err != nil {
+		tx.Rollback()
+		return err
+	}
+
+	_, err = tx.Exec("INSERT INTO TS_Links (ParentAgentID, LinkAgentID) values(?,?)", ParentAgentID, LinkAgentID)
+	if err != nil {
+		tx.Rollback()
+		return err
+	}
+
+	return tx.Commit()
+}
+
 func (db *DB) LinkExist(ParentAgentID int, LinkAgentID int) bool {
 	// prepare some arguments to execute for the sqlite db
 	stmt, err := db.db.Prepare("SELECT COUNT(*) FROM TS_Links WHERE ParentAgentID = ? AND LinkAgentID = ?")
